@@ -159,5 +159,8 @@ pub(crate) fn resolve_partial<Fd: AsFd>(
         }
     }
 
-    unreachable!("partial_ancestors should include root path which must be resolvable");
+    // partial_ancestors() ends with the root itself, which is always resolvable
+    // unless the lookup itself cannot work (descriptor exhaustion, ENOMEM, ...).
+    // In that case there is nothing partial to return -- report the failure.
+    Err(last_error)
 }
